@@ -564,6 +564,8 @@ def e2e_session(ctx, ci, cname, cinfo, mi, mname, minfo, sizes, compression, res
     ts = Transport(b)
     tc.packetizer.tee = tee
     tc.packetizer.records = []
+    import time as _time
+    t_start = _time.time()
     try:
         for t in (tc, ts):
             o = t.get_security_options()
@@ -640,8 +642,11 @@ def e2e_session(ctx, ci, cname, cinfo, mi, mname, minfo, sizes, compression, res
             if summ is not None:
                 results.append((inp, summ, case))
         if rx is None:
+            ctx.c03_e2e_failures = getattr(ctx, "c03_e2e_failures", 0) + 1
             ctx.fail("e2e-no-keyed-packet", "no packet was sent under the negotiated keys", case=case0)
     finally:
+        if _time.time() - t_start > 5:
+            ctx.c03_e2e_failures = getattr(ctx, "c03_e2e_failures", 0) + 1      # a session normally takes 30 ms
         for t in (tc, ts):
             try:
                 t.close()
